@@ -4,9 +4,27 @@
 //@include prelude/types.rs
 //@include prelude/ax.rs
 //@include prelude/spec.rs
+//@include prelude/ctx.rs
+//@include prelude/ev.rs
 //@include prelude/lemmas_arith.rs
 //@include prelude/env_conv.rs
 //@include prelude/env_opspec.rs
+//@include prelude/env_cmp.rs
+// eq / partial_cmp are *verified* in this group: no std-level spec is attached here (their contracts are on the fns)
+impl PartialEqSpecImpl for Value {
+    open spec fn obeys_eq_spec() -> bool { false }
+    open spec fn eq_spec(&self, other: &Value) -> bool { veq(vview(*self), vview(*other)) }
+}
+impl PartialOrdSpecImpl for Value {
+    open spec fn obeys_partial_cmp_spec() -> bool { false }
+    open spec fn partial_cmp_spec(&self, other: &Value) -> Option<Ordering> { vcmp(vview(*self), vview(*other)) }
+}
+broadcast use {vstd::std_specs::hash::group_hash_axioms, ax::axiom_string_ext, ax::axiom_i64_try_from_u64};
+//@assume objects.cmp_int_float
+//@verify objects.eq
+//@verify objects.partial_cmp
+//@verify objects.to_bool
+//@verify objects.map_get
 //@verify objects.add
 //@verify objects.sub
 //@verify objects.mul
